@@ -5,7 +5,8 @@ Theorems: coq/Properties/C13.v.
 Tie: correspondence -- the real wrappers are called with recording Python callables; the arguments the
 wrapped callable received and the value the wrapper returned are compared inside Coq (vm_compute)
 with the model: bit for bit (Coq primitive binary64 floats) for routing, clamping, the periodic
-remainder and sqrt(x*x+y*y); exactly over Q for samplers, polygon masks and constructor validation;
+remainder; the radius (libm hypot) against the exact square root within max(2^-51 relative, 2^-1074) over the
+whole finite range; exactly over Q for samplers, polygon masks and constructor validation;
 under a stated tolerance for the libm-dependent rotation of returned vectors.
 Search: the executable statement of the property (written independently of the model, exact
 Fractions) evaluated on the real implementation for every generated case.
@@ -27,7 +28,7 @@ THEOREMS = [
     "C13_periodic_inner_argument_in_period", "C13_periodic_algorithm_meets_specification",
     "C13_periodic_rounded_algorithm_in_period_partial", "C13_periodic_binary64_correction_effective",
     "C13_periodic_unfixed_algorithm_refuted",
-    "C13_axisymmetric_maps_to_radius", "C13_vectors_rotated_by_toroidal_angle",
+    "C13_axisymmetric_maps_to_radius", "C13_radius_unfixed_algorithm_refuted", "C13_vectors_rotated_by_toroidal_angle",
     "C13_linspace_even_with_both_end_points", "C13_sampler_entry_is_function_at_grid_point",
     "C13_mask_independent_of_vertex_order", "C13_mask_is_point_in_polygon_partial",
 ]
@@ -85,7 +86,7 @@ def run(ctx):
         "comparisons = IEEE-754 round-to-nearest-even, as implemented by the OCaml runtime / hardware)",
         "harness/c13.py, harness/c13_gen.py: generators, recording callables, float -> (sign, mantissa, exponent) printer, "
         "the comparators in Model/C13_Check.v",
-        "libm atan2 / cos / sin, raysect rotate_z and Vector3D.transform (oracles: only the quadrant of the angle and the rotated "
+        "libm hypot (required, not assumed, to be within max(2^-51 relative, 2^-1074) of the exact root and finite), libm atan2 / cos / sin, raysect rotate_z and Vector3D.transform (oracles: only the quadrant of the angle and the rotated "
         "vector, within 2^-40, are checked), numpy.linspace (compared with the model within 2^-48 of the span, end points exactly), "
         "raysect triangulate2d / Discrete2DMesh (compared with the even-odd crossing test on points with margin)",
         "raysect autowrap_function*: a Python callable receives exactly the doubles the Cython wrapper passed",
@@ -342,13 +343,15 @@ def run(ctx):
     pi_lo, pi_hi = Fraction(3141592653589793, 10 ** 15), Fraction(3141592653589794, 10 ** 15)
 
     def faithful_radius(x, y, r):
+        """r finite, >= 0 and |r - sqrt(x^2+y^2)| <= max(2^-51 r, 2^-1074), for the whole finite range
+        (same statement as accurate_radius in Model/C13_Check.v, written independently with Fractions)"""
         if not (math.isfinite(r) and r >= 0):
             return False
         s = Fraction(x) ** 2 + Fraction(y) ** 2
-        lo, hi = math.nextafter(r, -inf), math.nextafter(r, inf)
-        if not math.isfinite(hi):
-            return False
-        return (lo <= 0 or Fraction(lo) ** 2 <= s) and s <= Fraction(hi) ** 2
+        q = Fraction(r)
+        d = max(q / 2 ** 51, Fraction(1, 2 ** 1074))
+        lo = max(Fraction(0), q - d)
+        return lo ** 2 <= s <= (q + d) ** 2
 
     def quadrant_ok(x, y, phi):
         if not math.isfinite(phi):
@@ -375,11 +378,9 @@ def run(ctx):
         rec.append((r, p, z))
         return vret[0]
     n_ax = 160 * scale
-    range_fail = []
     for i in range(n_ax):
         x, y, z, kind = gen_xyz(rng)
-        extreme = kind in ("huge", "tiny")
-        which = i % 4 if not extreme else i % 2
+        which = i % 4
         rec.clear()
         ret[0] = ordinary_float(rng)
         v = (ordinary_float(rng), ordinary_float(rng), ordinary_float(rng))
@@ -399,15 +400,15 @@ def run(ctx):
         r, zz = got[0], got[-1]
         meta = {"wrapper": name, "args": hexl((x, y, z)), "args_repr": repr((x, y, z)), "received": hexl(got), "received_repr": repr(got)}
         ok_r = faithful_radius(x, y, r)
-        checks = ["chk_radius %s %s %s" % (fb(x), fb(y), fb(r)), "chk_swizzle2 %s %s %s" % (fb(z), fb(z), fbl((zz, zz)))]
-        spec = len(rec) == 1 and same_bits(zz, z)
+        checks = ["accurate_radius %s %s %s" % (fb(x), fb(y), fb(r)), "chk_swizzle2 %s %s %s" % (fb(z), fb(z), fbl((zz, zz)))]
+        spec = len(rec) == 1 and same_bits(zz, z) and ok_r
         if which % 2 == 1:
             phi = got[1]
             checks.append("chk_quadrant %s %s %s" % (fb(x), fb(y), fb(phi)))
             spec = spec and quadrant_ok(x, y, phi) and same_bits(phi, math.atan2(y, x))
         if which < 2:
             spec = spec and same_bits(out, ret[0])
-        elif not extreme and r > 0 and math.isfinite(r):
+        elif r > 2.0 ** -1000 and math.isfinite(r):      # the rotation is compared where r is relatively accurate
             o = (out.x, out.y, out.z)
             checks.append("chk_rot %s %s %s (%s, %s, %s) (%s, %s, %s)" % (
                 qlit(x), qlit(y), qlit(r), qlit(v[0]), qlit(v[1]), qlit(v[2]), qlit(o[0]), qlit(o[1]), qlit(o[2])))
@@ -416,15 +417,11 @@ def run(ctx):
             c, s = x / h, y / h
             tol = 1e-12 * max(abs(t) for t in v)
             spec = spec and abs(o[0] - (c * v[0] - s * v[1])) <= tol and abs(o[1] - (s * v[0] + c * v[1])) <= tol and o[2] == v[2]
-        if not extreme:
-            spec = spec and ok_r
-        elif not ok_r:
-            # the radius handed to the wrapped function is not sqrt(x^2+y^2) to within one unit in the last place
-            range_fail.append(dict(meta, family="radius", cls=kind,
-                                   claim="%s evaluates the wrapped function at r = %r for (x, y) = (%r, %r): sqrt(x*x + y*y) "
-                                         "overflows / underflows although sqrt(x^2+y^2) = %r is representable" % (name, r, x, y, math.hypot(x, y))))
+        if not ok_r:
+            meta["radius_claim"] = "%s evaluates the wrapped function at r = %r for (x, y) = (%r, %r); sqrt(x^2+y^2) = %r" % (
+                name, r, x, y, math.hypot(x, y))
         C.add("radius/" + ("scalar" if which < 2 else "vector"), kind, "(" + " && ".join(checks) + ")", meta, spec,
-              "%s: wrapped function evaluated at (sqrt(x^2+y^2)%s, z), vector rotated by the toroidal angle" % (
+              meta.get("radius_claim") or "%s: wrapped function evaluated at (sqrt(x^2+y^2)%s, z), vector rotated by the toroidal angle" % (
                   name, ", atan2(y,x)" if which % 2 else ""))
 
     # ---- polygon masks ---------------------------------------------------------------------------------------------
@@ -571,9 +568,6 @@ def run(ctx):
             found=True)
         if len(seen) >= 16:
             break
-    if range_fail:
-        ctx.violation("c13:radius-range", range_fail[0]["claim"], {"first": range_fail[0], "count": len(range_fail),
-                                                                  "others": range_fail[1:4]}, found=True)
     unexplained = [ci for ci in diff_cases if not any(C.meta[ci]["family"] == sf["family"] for sf in fails)]
     for ci in unexplained[:3]:
         m = C.meta[ci]
@@ -593,8 +587,10 @@ def run(ctx):
                 "values, bounds hit exactly, NaN/inf for clamps, branch cut of atan2, rays through vertices, n = 1) : %d" % nontriv,
         "distribution": {"by_family": fam, "by_family_and_class": dict(sorted(C.dist.items())),
                          "mask_points_skipped_as_ambiguous(within 2^-20 of an edge)": n_amb,
-                         "radius_out_of_range_cases": len(range_fail)},
-        "tolerance": {"routing, clamp, periodic remainder, sqrt(x*x+y*y)": "bit for bit (binary64)",
+                         "radius_cases_with_overflowing_or_underflowing_squares": sum(
+                             1 for m in C.meta if m["family"].startswith("radius") and m["cls"] in ("huge", "tiny"))},
+        "tolerance": {"routing, clamp, periodic remainder": "bit for bit (binary64)",
+                      "radius (libm hypot) vs exact sqrt(x^2+y^2)": "max(2^-51 relative, 2^-1074 absolute), finite result required, whole finite range, decided exactly on the squares",
                       "periodic vs exact reduction": "2^-52 * period", "rotated vector": "2^-40 of the largest component (libm cos/sin, rotate_z)",
                       "linspace interior points": "2^-48 of max(|a|,|b|); end points exact", "mask": "exact boolean at points with margin >= 2^-20 size",
                       "constructor errors": "exact"},
